@@ -301,6 +301,14 @@ class PathCut(Exception):
 # ---------------------------------------------------------------------------
 
 
+def _has_regex(t, _depth=0):
+    if _depth > 6:
+        return False
+    if z3.is_app(t) and t.decl().kind() == z3.Z3_OP_SEQ_IN_RE:
+        return True
+    return any(_has_regex(c, _depth + 1) for c in t.children())
+
+
 class Ctx:
     """One symbolic path: decision trail, path condition, ghost state.
 
@@ -324,6 +332,8 @@ class Ctx:
         self.inputs = {}  # name -> z3 const (for models / known-finding classes)
         self.notes = []
         self.observe = {}  # name -> engine value, evaluated under witness / counter models
+        self.realism = []  # z3 constraints added only when a model for replay is searched (never to a proof)
+        self.realism_hints = []  # tried first, dropped when unsatisfiable (templates for string inputs)
         self.solver_s = 0.0
         self.nchecks = 0
 
@@ -380,6 +390,11 @@ class Ctx:
         if self.prune and self._check() == z3.unsat:
             raise Infeasible()
 
+    def lemma(self, name, cond):
+        """cut: `cond` becomes a named obligation under the current path condition and is assumed afterwards."""
+        self.site_obligs.append((name, cond, len(self.pc)))
+        self.assume(cond)
+
     def _check(self, *extra):
         t0 = time.time()
         r = self.solver.check(*extra)
@@ -391,11 +406,14 @@ class Ctx:
         """Decide a symbolic condition on this path; returns a python bool."""
         if isinstance(cond, bool):
             return cond
-        t = z3.simplify(_t(cond))
-        if z3.is_true(t):
+        t = _t(cond)
+        ts = z3.simplify(t)
+        if z3.is_true(ts):
             return True
-        if z3.is_false(t):
+        if z3.is_false(ts):
             return False
+        if t.sort() != z3.BoolSort() or not _has_regex(ts):
+            t = ts  # (regular expressions keep their written shape: solvers match them syntactically against lemmas)
         i = len(self.decisions)
         if i < len(self.prefix):
             d = self.prefix[i]
@@ -488,6 +506,9 @@ class Verdict:
         self.detail = detail
 
 
+CVC5_FIRST = False  # set per task (string-heavy obligations: cvc5 decides indexof / substr where z3 does not)
+
+
 def discharge(pc_terms, goal, timeout_ms=10000, use_cvc5=True, extra_hyps=()):
     """Prove pc ==> goal.  Returns Verdict; model (z3 ModelRef) when refuted by z3."""
     t0 = time.time()
@@ -507,13 +528,21 @@ def discharge(pc_terms, goal, timeout_ms=10000, use_cvc5=True, extra_hyps=()):
     for a in extra_hyps:
         s.add(a)
     s.add(z3.Not(g))
+    cvc5_said = None
+    if CVC5_FIRST and use_cvc5:
+        v, out = run_cvc5(s.to_smt2(), timeout_s=max(3, min(10, timeout_ms // 1000)), produce_model=False)
+        if v == "unsat":
+            return Verdict("proved", "cvc5-cli", time.time() - t0)
+        cvc5_said = (v, out)
     r = s.check()
     dt = time.time() - t0
     if r == z3.unsat:
         return Verdict("proved", "z3-" + z3.get_version_string(), dt)
     if r == z3.sat:
         return Verdict("refuted", "z3-" + z3.get_version_string(), dt, model=s.model())
-    if use_cvc5:
+    if cvc5_said is not None and cvc5_said[0] == "sat":
+        return Verdict("refuted", "cvc5-cli", dt, model=None, detail=cvc5_said[1])
+    if use_cvc5 and cvc5_said is None:
         txt = s.to_smt2()
         v, out = run_cvc5(txt, timeout_s=max(5, timeout_ms // 1000), produce_model=True)
         dt = time.time() - t0
